@@ -72,12 +72,14 @@ var (
 
 // world is the concrete instantiation shared by all replicas of one behaviour.
 type world struct {
-	accts   map[string]*appx.Account
-	wallets map[string]*appx.Wallet
-	coins   []*appx.Coin // by abstract coin id - 1
-	initBal int
-	spent   map[int]bool
-	txCache map[string]types.Tx // committed transactions by abstract description (for replays)
+	accts      map[string]*appx.Account
+	wallets    map[string]*appx.Wallet
+	coins      []*appx.Coin // by abstract coin id - 1
+	initBal    int
+	spent      map[int]bool
+	txCache    map[string]types.Tx // committed transactions by abstract description (for replays)
+	spendCount int
+	lastRing   int
 }
 
 type replica struct {
@@ -153,12 +155,19 @@ func (w *world) build(t aTx, ref *appx.Env, newCoins *[]*appx.Coin) (types.Tx, e
 		out := new(big.Int).Sub(claimed, fee)
 		var tx *types.UTXOTransaction
 		var err error
+		// ring size: one (plain ring signature path) or two (MLSAG path) when decoys exist
+		var decoys []types.UTXORingEntry
+		w.spendCount++
+		if d := ref.Decoys(c, 1); len(d) == 1 && w.spendCount%2 == 0 {
+			decoys = d
+		}
+		w.lastRing = 1 + len(decoys)
 		if t.K == "wd" {
 			to := w.accts[t.T].Addr
-			tx, _, err = appx.Spend(c, claimed, &to, out, nil, nil)
+			tx, _, err = appx.SpendRing(c, decoys, claimed, &to, out, nil, nil)
 		} else {
 			var coins []*appx.Coin
-			tx, coins, err = appx.Spend(c, claimed, nil, nil, w.wallets[t.T], out)
+			tx, coins, err = appx.SpendRing(c, decoys, claimed, nil, nil, w.wallets[t.T], out)
 			*newCoins = append(*newCoins, coins...)
 		}
 		if err != nil {
@@ -238,13 +247,13 @@ func (r *replica) digestAt(h uint64) blockDigest {
 
 // Result of replaying one behaviour.
 type Result struct {
-	Digests   []blockDigest
-	Mismatch  string // first property-level mismatch ("" if none)
-	Class     string // violation class
-	Blocks    int
-	Accepted  int
-	Attacks   int // offered blocks the model rejects
-	Executed  int // blocks actually executed on replicas
+	Digests  []blockDigest
+	Mismatch string // first property-level mismatch ("" if none)
+	Class    string // violation class
+	Blocks   int
+	Accepted int
+	Attacks  int // offered blocks the model rejects
+	Executed int // blocks actually executed on replicas
 }
 
 // Focus selects the property whose oracles produce violations.
@@ -368,6 +377,9 @@ func replay(g *mbt.Graph, path []int, dir string, rng *rand.Rand, initBal int) (
 				switch {
 				case (t.K == "wd" || t.K == "cx") && t.class() == "inflate":
 					class = "tamper-accepted/inflate-short-ring"
+					if w.lastRing > 1 {
+						class = "tamper-accepted/inflate-long-ring"
+					}
 				case (t.K == "wd" || t.K == "cx") && t.class() != "ok":
 					class = "tamper-accepted/" + t.class()
 				case (t.K == "wd" || t.K == "cx") && !act.Ok:
@@ -561,7 +573,7 @@ func Run(c *core.Ctx, focus string) {
 	var outs []childOut
 	for pi, procs := range []int{1, 8} {
 		arg, _ := json.Marshal(map[string]interface{}{"edges": edgeFile, "dir": filepath.Join(base, fmt.Sprintf("p%d", pi)), "procs": procs,
-			"walks": c.Pick(30, 400), "focus": focus, "initBal": exportInitBal(exportCfg)})
+			"walks": c.Pick(30, 400), "maxTours": c.Pick(250, 0), "focus": focus, "initBal": exportInitBal(exportCfg)})
 		results, at, crash := c.RunChild(string(arg), c.MinutesT(6, 40))
 		if crash != "" {
 			if crash == "TIMEOUT" {
@@ -643,12 +655,13 @@ func relevant(focus, key string) bool {
 
 func child(c *core.Ctx) {
 	var j struct {
-		Edges   string `json:"edges"`
-		Dir     string `json:"dir"`
-		Procs   int    `json:"procs"`
-		Walks   int    `json:"walks"`
-		Focus   string `json:"focus"`
-		InitBal int    `json:"initBal"`
+		Edges    string `json:"edges"`
+		Dir      string `json:"dir"`
+		Procs    int    `json:"procs"`
+		Walks    int    `json:"walks"`
+		Focus    string `json:"focus"`
+		InitBal  int    `json:"initBal"`
+		MaxTours int    `json:"maxTours"`
 	}
 	if json.Unmarshal([]byte(c.Child), &j) != nil {
 		os.Exit(3)
@@ -664,6 +677,10 @@ func child(c *core.Ctx) {
 	}
 	rng := rand.New(rand.NewSource(c.Seed))
 	paths := g.Tour(12, rng)
+	if j.MaxTours > 0 && len(paths) > j.MaxTours { // quick tier: a seeded sample of the tour
+		rng.Shuffle(len(paths), func(a, b int) { paths[a], paths[b] = paths[b], paths[a] })
+		paths = paths[:j.MaxTours]
+	}
 	paths = append(paths, g.Walks(j.Walks, 10, rng)...)
 	out := map[string]interface{}{}
 	digests := map[string][]blockDigest{}
